@@ -2020,9 +2020,24 @@ pub(crate) mod convert {
             deps: &mut Vec<UnitSectionOffset>,
             offset: LocationListsOffset,
         ) -> ConvertResult<()> {
-            let mut locations = self.read_unit.locations(offset)?;
+            // Use the raw entries because that is what the conversion step converts.
+            // This includes the expressions of entries that the non-raw iterator skips,
+            // such as empty or tombstone ranges.
+            let mut locations = self.read_unit.raw_locations(offset)?;
             while let Some(location) = locations.next()? {
-                self.add_expression_refs(deps, location.data)?;
+                match location {
+                    read::RawLocListEntry::AddressOrOffsetPair { data, .. }
+                    | read::RawLocListEntry::StartxEndx { data, .. }
+                    | read::RawLocListEntry::StartxLength { data, .. }
+                    | read::RawLocListEntry::OffsetPair { data, .. }
+                    | read::RawLocListEntry::DefaultLocation { data }
+                    | read::RawLocListEntry::StartEnd { data, .. }
+                    | read::RawLocListEntry::StartLength { data, .. } => {
+                        self.add_expression_refs(deps, data)?;
+                    }
+                    read::RawLocListEntry::BaseAddress { .. }
+                    | read::RawLocListEntry::BaseAddressx { .. } => {}
+                }
             }
             Ok(())
         }
